@@ -4,7 +4,7 @@
    [wf_events id r es]: r is never cancelled, id is registered with no other handle and r for no
    other id.  [peers id es]: the arrivals for id, in order. *)
 From Coq Require Import ZArith NArith List Bool.
-From DosVerif Require Import Base.Val Models.QueryLoop Proofs.QueryLoopProofs.
+From DosVerif Require Import Base.Val Models.QueryLoop Proofs.QueryLoopProofs Proofs.QueryLoopRereg.
 Import ListNotations.
 
 (* every arrival for id is handed to r exactly once, in arrival order, whether it came before or
@@ -29,6 +29,38 @@ Theorem C13_frame :
   deliveries_to r (snd (run st0 es)) = deliveries_to r (snd (run st0 (filter (relevant id r) es))).
 Proof. exact frame. Qed.
 Print Assumptions C13_frame.
+
+(* a request id registered AGAIN (a fresh handle: new context, new reply channel) after any history
+   - the earlier registration live, cancelled, completed or swept: the new handle receives what was
+   buffered for the id since, then every later arrival, each exactly once and in order *)
+Theorem C13_reregistration :
+  forall (id r : N) (es1 es2 : list ev),
+  fresh_in r es1 -> wf_events id r (Register id r :: es2) ->
+  deliveries_to r (snd (run st0 (es1 ++ Register id r :: es2))) =
+  buf_of (fst (run st0 es1)) id ++ peers id es2.
+Proof. exact reregistration. Qed.
+Print Assumptions C13_reregistration.
+
+(* ... and when the old entry is still in the table (register, cancel, register again) nothing is
+   buffered: exactly the later arrivals *)
+Theorem C13_reregistration_over_old_entry :
+  forall (id r : N) (es1 es2 : list ev),
+  fresh_in r es1 -> wf_events id r (Register id r :: es2) ->
+  lookup id (reg (fst (run st0 es1))) <> None ->
+  deliveries_to r (snd (run st0 (es1 ++ Register id r :: es2))) = peers id es2.
+Proof. exact reregistration_over_old_entry. Qed.
+Print Assumptions C13_reregistration_over_old_entry.
+
+Example C13_reregistration_example :
+  fresh_in 2 [Register 5 1; Peer 5 10; Cancel 1]%N /\ wf_events 5 2 [Register 5 2; Peer 5 11; Peer 6 3; Peer 5 12]%N /\
+  deliveries_to 2 (snd (run st0 ([Register 5 1; Peer 5 10; Cancel 1] ++ Register 5 2 :: [Peer 5 11; Peer 6 3; Peer 5 12])))%N = [11; 12]%N.
+Proof.
+  split; [split; [cbn; intuition discriminate|intros id' H; cbn in H; intuition discriminate]|].
+  split; [|vm_compute; reflexivity].
+  split; [cbn; intuition discriminate|].
+  split; intros x H; cbn in H; intuition (try discriminate); congruence.
+Qed.
+Print Assumptions C13_reregistration_example.
 
 (* before the repair (fix: commit) a share with an empty request id (id 0 here) arriving while
    nothing is registered for it crashed the loop *)
